@@ -9,6 +9,9 @@ Solver obligations:
   XH  is_zid accepts every allocated ZID / rejects words without '#'
   XH  a compiled page carrying an allocated ZID gives that ZID back (skeleton + hole, see c01 engine)
 """
+import os as _os
+_os.environ["XH_NO_PATCH"] = "1"   # this process replays on the real code: never patch zorg here
+
 import datetime as dt
 import json
 import os
